@@ -41,7 +41,10 @@ VARIABLES names, cov, reg
 svars == <<names, cov, reg>>
 
 (* evaluated on every event of every trace; the C10 matrix events carry their own clause (documented panics) *)
-ReqCommon(ev) == IF ev.op = "Call" THEN {} ELSE { <<"C10.no_panic", ev.out # "Panic">>, <<"C10.no_timeout", ev.out # "Timeout">> }
+(* subPanic: one of the calls the driver made on the way to the observation (parsing an artefact back, re-issuing from imported *)
+(* parameters, loading an export again) panicked inside the library                                                              *)
+SubPanic(ev) == "subPanic" \in DOMAIN ev /\ ev.subPanic
+ReqCommon(ev) == IF ev.op = "Call" THEN {} ELSE { <<"C10.no_panic", ev.out # "Panic" /\ ~SubPanic(ev)>>, <<"C10.no_timeout", ev.out # "Timeout">> }
 
 (* a certificate request that the property obliges rcgen to honour: the sweeps only produce encodable *)
 (* parameter sets; the crypto-less build legitimately refuses an automatic serial                      *)
